@@ -14,9 +14,10 @@ func c20LookupTables() []string { return c20GenericLookupTables }
 
 func c20CheckVectorConsts(r *h.R) {
 	r.Eval(1)
-	// stubs: "not actually used ... but need to be defined"
-	if supportsVectorizedEdwards || constVECTOR_ODD_MULTIPLES_OF_BASEPOINT != nil || constVECTOR_ODD_MULTIPLES_OF_B_SHL_128 != nil {
-		r.Fail("curve.vector-stubs:unexpectedly-populated", "")
+	// stubs: "not actually used ... but need to be defined"; the only value
+	// with content is the feature flag, which must be off in these builds.
+	if supportsVectorizedEdwards {
+		r.Fail("curve.supportsVectorizedEdwards:true-in-a-build-without-vector-code", "")
 	}
 }
 
